@@ -1,4 +1,5 @@
 import Drv.Basic
+import Drv.Parse
 import Drv.Exec
 import Drv.Gen
 import Drv.Judge
